@@ -4,6 +4,7 @@
 
 mod families;
 mod play;
+mod pure;
 mod textreplay;
 
 fn main() {
@@ -16,6 +17,8 @@ fn main() {
     match argv[1].as_str() {
         "play" => play::run(&args),
         "families" => families::run(&args),
+        "magic" => pure::magic(&args),
+        "movevalue" => pure::movevalue(&args),
         "san" => textreplay::san(&args),
         "fen" => textreplay::fen(&args),
         "hashvar" => textreplay::hashvar(&args),
